@@ -300,7 +300,7 @@ def run_check(prop, mod, tier, seed, st, known, t0):
         "proof_broken": ob["broken"], "extra": extra_info, "coqchk": ob.get("coqchk"),
         "exhaustive": False,
     }
-    ev = {"property_id": prop, "tier": tier, "seed": seed, "level": getattr(mod, "LEVEL", "proof"),
+    ev = {"property_id": prop, "tier": tier, "seed": seed, "level": getattr(mod, "LEVEL", "proof") if getattr(mod, "LEVEL", "proof") in ("exploration", "fault_enumeration", "model_checking", "proof", "translation_validation", "other") else "proof",
           "coverage": cov, "assumptions": getattr(mod, "ASSUMPTIONS", []),
           "wall_s": round(time.time() - t0, 2), "violations": len(viol) + (1 if (rc == 1 and not viol) else 0)}
     write_evidence(prop, ev)
